@@ -103,6 +103,10 @@ def hot_stage(b, after=3.0):
     except CaseTimeout as x:
         tb = [f for f in traceback.extract_tb(x.__traceback__) if "/amoco/" in f.filename]
         names = ["%s:%s" % (os.path.basename(f.filename), f.name) for f in tb]
+        if "pe.py:loadsegment" in names:
+            # root cause shared by every PE table reader (imports, TLS, load config): getdata materialises the section
+            # padded to its (corrupted) VirtualSize
+            return "pe.py:loadsegment"
         for i, n in enumerate(names):
             if n.endswith(":__parse") and i + 1 < len(names):
                 return names[i + 1]
@@ -111,6 +115,14 @@ def hot_stage(b, after=3.0):
         return "?"
     finally:
         signal.setitimer(signal.ITIMER_PROF, 0)
+
+
+def remeasure(b):
+    """one input alone in a fresh worker: (outcome, CPU seconds, finding key)"""
+    signal.signal(signal.SIGPROF, _alarm)
+    resource.setrlimit(resource.RLIMIT_AS, (4 << 30, 4 << 30))
+    o, dt, jump = identify(b)
+    return o, dt, ("time|%s" % hot_stage(b)) if (o[0] == "timeout" or dt > TIME_LIMIT) else None
 
 
 def gen_inputs(seed, n, files):
@@ -347,6 +359,7 @@ def check(run):
     gc.freeze()
     with mp.get_context("fork").Pool(14) as pool:
         results = pool.map(worker, tasks, chunksize=1)
+    slow = []
     for r in results:
         run.cov["evaluations"] += r["n"]
         run._distinct.update(("%d-%d" % (id(r), j)).encode() for j in range(r["n"]))
@@ -358,7 +371,18 @@ def check(run):
         for s in r["samples"]:
             run.sample(s, 3)
         for k, v in sorted(r["finds"].items()):
+            if k.startswith("time|") and v["input"] is not None:
+                slow.append((k, v))
+                continue
             run.violation(k, v["what"], {"input": v["input"], "tag": v["tag"], "length": v["length"]}, found_input=v["input"] is not None)
+    # CPU time measured inside a loaded 14-process pool is confirmed once more here, alone, before it is reported
+    for k, v in slow:
+        b = bytes.fromhex(v["input"])
+        with mp.get_context("fork").Pool(1) as one:
+            o, dt, k2 = one.apply(remeasure, (b,))
+        run.cov["slow_inputs_remeasured"] = run.cov.get("slow_inputs_remeasured", 0) + 1
+        if o[0] == "timeout" or dt > TIME_LIMIT:
+            run.violation(k2, v["what"] + " (confirmed alone: %.1f s)" % dt, {"input": v["input"], "tag": v["tag"], "length": v["length"]})
     line_part(run, quick)
     run.cov["limits"] = {"seconds": TIME_LIMIT, "rss_jump_mb": MEM_JUMP_MB, "address_space_gb": 4}
     run.cov["trusted_base"] += ["harness/c20.py outcome classification (exception class and innermost amoco frame), time and memory measurement "
